@@ -2,4 +2,5 @@
 #include <crab/domains/dis_intervals.hpp>
 using namespace simd;
 using D = dis_interval_domain<z_number, varname_t>;
-SIM_REGISTER_DOMAIN(dis_intervals, D, "dis_intervals", CAP_NONREL | CAP_CORE)
+SIM_REGISTER_DOMAIN(dis_intervals, D, "dis_intervals",
+                    CAP_NONREL | CAP_CORE | CAP_BACKWARD)
